@@ -8,9 +8,10 @@ import Gotree.Lemmas.C04Fill
 import Gotree.Lemmas.C04Hash
 import Gotree.Lemmas.C04Quart
 import Gotree.Lemmas.C04Transport
-import Gotree.Proofs.C05
+import Gotree.Lemmas.C05
 import Gotree.Model.C04Facts
 import Gotree.Lemmas.C04DumpCli
+import Gotree.Lemmas.C04Depth
 import Gotree.Gen.C04Facts
 
 namespace Gotree.C04
@@ -184,10 +185,23 @@ theorem edits_keep_hashes (H : String → UInt64) (t t' : T) (hu : t.tipNames.No
       e.hashCode = e'.hashCode ∧ e.equals e' = true ∧ e.sameBipartition e' = true := by
   have hu5 : C05.uniq t = true := by simp [C05.uniq, hu]
   have hperm : t'.tipNames.Perm t.tipNames := by
+    -- (the three facts are `reroot_preserves` / `unroot_preserves` / `rotate_preserves` of C05, re-derived here from
+    --  C05's lemma library so that this module does not depend on C05's proof module and its tables)
     rcases hop with ⟨p, h, hl⟩ | ⟨rfl, hl, hsup⟩ | ⟨draws, rfl, hl⟩
-    · exact (C05.P.reroot_preserves t t' p hu5 hl h).1
-    · exact (C05.P.unroot_preserves t hu5 hl hsup).1
-    · exact (C05.P.rotate_preserves t draws hl).1
+    · have ht : t' = (C05.rerootP t p none []).1 := by
+        unfold C05.reroot at h
+        cases hn : C05.nodeAt t p with
+        | none => simp [hn] at h
+        | some n =>
+          simp only [hn] at h
+          by_cases h2 : (if p.isEmpty then n.kids.length else n.kids.length + 1) < 2
+          · rw [if_pos h2] at h; cases h
+          · rw [if_neg h2] at h; cases h; rfl
+      subst ht
+      obtain ⟨s, _⟩ := C05.rerootP_same p t none [] ((C05.uniq_iff t).1 hu5) ((C05.lensOK_iff t).1 hl)
+      exact s.spec.1
+    · exact (C05.unroot_same t ((C05.uniq_iff t).1 hu5) ((C05.lensOK_iff t).1 hl) ((C05.supsOK_iff t).1 hsup)).spec.1
+    · exact (C05.rotate_same t draws ((C05.lensOK_iff t).1 hl)).spec.1
   exact hashCode_split_invariant H t t' hu (hperm.nodup_iff.mpr hu) hperm.symm i j hi hj hs
 /-- `equals_iff_sameSplit`: `HashEquals` and `SameBipartition` hold exactly for branches that define
     the same split. -/
@@ -557,6 +571,38 @@ theorem dumpBitSet_pinned_fails :
     (dumpBitSetL (some (mkBits 65 [64]))).length = 66 := by
   refine ⟨by decide, by decide, by decide, by decide⟩
 
+/-! ## node depths (`ComputeDepths`, the last step of `ReinitIndexes` / `ReinitInternalIndexes`) -/
+
+/-- On a rooted tree (root with two neighbours) `ComputeDepths` — `computeDepthRecurRooted`: tips 0, else one more than
+    the least depth among the children — gives every node its distance to the closest tip below it, whatever depths
+    the nodes carried before. -/
+theorem computeDepths_rooted (t : T) (hr : t.kids.length = 2) (before : List Int) :
+    computeDepths t before = specDepths t := by
+  simp [computeDepths, specDepths, hr, (depthRootedT_eq t).1]
+
+/-- ((t3,t5),(t0,t4),t2) — what ((t2,t1),(t3,t5),(t0,t4)) becomes when t1 is removed -/
+def exDepth : T := .node ⟨"", []⟩ 0
+  [(⟨1, NIL, NIL, [], 0⟩, .node ⟨"", []⟩ 0 [(⟨1, NIL, NIL, [], 1⟩, .leaf "t3"), (⟨1, NIL, NIL, [], 2⟩, .leaf "t5")]),
+   (⟨1, NIL, NIL, [], 3⟩, .node ⟨"", []⟩ 0 [(⟨1, NIL, NIL, [], 4⟩, .leaf "t0"), (⟨1, NIL, NIL, [], 5⟩, .leaf "t4")]),
+   (⟨1, NIL, NIL, [], 6⟩, .leaf "t2")]
+
+/-- F98 (before fix 7dc6678): on a tree that is not rooted `computeDepthUnRooted` filled only the depths that were
+    still unset.  On fresh nodes it gave the distance to the closest tip (here 1 for the root, which touches t2); on
+    nodes that carried the depths of the shape before the edit (root 2) it changed nothing.  The repaired model
+    forgets them first. -/
+theorem computeDepths_unrooted_pinned_fails :
+    computeDepthsPinned exDepth [-1, -1, -1, -1, -1, -1, -1, -1] = specDepths exDepth ∧
+    specDepths exDepth = [1, 1, 0, 0, 1, 0, 0, 0] ∧
+    computeDepthsPinned exDepth [2, 1, 0, 0, 1, 0, 0, 0] = [2, 1, 0, 0, 1, 0, 0, 0] ∧
+    computeDepths exDepth [2, 1, 0, 0, 1, 0, 0, 0] = specDepths exDepth := by decide
+
+/-- since 7dc6678 the depths carried before the call do not matter, rooted or not (same number of nodes) -/
+theorem computeDepths_forgets (t : T) (b b' : List Int) (h : b.length = b'.length) :
+    computeDepths t b = computeDepths t b' := by
+  have : (b.map fun _ => (-1 : Int)) = b'.map fun _ => (-1 : Int) := by
+    rw [List.map_const', List.map_const', h]
+  simp only [computeDepths, this]
+
 /-! ## facts about the source, regenerated on every run (`vh gen-tables`, harness/c04/extract.go) -/
 
 /-- Table (a) `Gen.C04Facts.reach`: every edit of the histories that the harness reads "straight after its own
@@ -567,7 +613,7 @@ theorem dumpBitSet_pinned_fails :
 theorem recompute_table_check :
     Facts.reachOK Gotree.Gen.C04Facts.reach = true ∧ Gotree.Gen.C04Facts.problems = [] := by decide
 
-/-- Table (b) `Gen.C04Facts.facts`: the one-line decisions the model copies by hand — `indexFor`'s mask, the
+/-- Table (b) `Gen.C04Facts.facts`: the one-line decisions the model copies by hand — the
     rehash test (`>=`, float64 product) and growth factor 2, `NewHashMap`'s size 0 → 1, the three-way choice of
     `Edge.HashCode`, `HashEquals`, `SameBipartition`, `TopoDepth`, the filter of `EdgeIndex.Edges`, the five
     compare-and-swap steps and the polynomial of `Quartet.HashCode`, `fnv.New64a`, the bytewise comparator of
@@ -575,5 +621,18 @@ theorem recompute_table_check :
     `Facts.assumedFacts` says.  When this fails, the listed function was rewritten: the generated cases (hm / ei /
     pairs / quartet, every capacity and tie) look for a failing input; if none is found the model must be re-read. -/
 theorem facts_table_check : Facts.factsDiff Gotree.Gen.C04Facts.facts = [] := by decide
+
+/-- Table (c) `Gen.C04Facts.sem` / `hashCodeChain`: the expressions of `indexFor`, of the guard and value of
+    `Edge.TopoDepth`, of the filter of `EdgeIndex.Edges` and the decision list of `Edge.HashCode`, handed over as terms
+    and EVALUATED on probes (uint64 wrap-around for the hashes): they compute what `indexFor`, `EdgeIdx.topoDepth`,
+    `eiKeep` and `EdgeIdx.hashCode` of the model compute.  An equivalent rewrite of the Go expression stays green; a
+    change of meaning fails here and the hm / ei / pairs cases look for the failing input. -/
+theorem sem_table_check :
+    Facts.indexForOK (Facts.semLookup Gotree.Gen.C04Facts.sem "indexFor.ret") = true ∧
+    Facts.topoDepthOK (Facts.semLookup Gotree.Gen.C04Facts.sem "Edge.TopoDepth.err")
+      (Facts.semLookup Gotree.Gen.C04Facts.sem "Edge.TopoDepth.ret") = true ∧
+    Facts.edgesKeepOK (Facts.semLookup Gotree.Gen.C04Facts.sem "EdgeIndex.Edges.keep") = true ∧
+    Facts.hashCodeOK Gotree.Gen.C04Facts.hashCodeChain = true := by
+  refine ⟨by decide, by decide, by decide, by decide⟩
 
 end Gotree.C04
